@@ -264,6 +264,7 @@ JudgeOut judge(const json &plan)
 	JudgeOut out;
 	RunResult base = execute(plan);
 	add_exec_counters(out, base);
+	note_schedule(out, plan);
 	ExecOpts so;
 	so.scrub = true;
 	RunResult scrub = execute(plan, so);
